@@ -34,6 +34,10 @@ CLAIMED = {
          'Id uniqueness, callback-only-on-matching-ack, foreign/duplicate ACK inert, none-after-disconnect, call() result as theorems; '
          'adversarial ACK streams on both families and the model.',
          TB + 'call(): the wait primitive is scripted.', '§5 C06'),
+ 'C07': ('proof', 'Lean 4 simulation (cluster vs single server) and any-schedule theorems over a pub/sub cluster model; 2-4 real servers on an in-memory channel vs one real server and vs the model',
+         'sync_equiv (frames, all placements/hosts), at_most_once, eligible, unraced_exact, callback_once (any schedule), remote-ops-local-effect as theorems; '
+         'mode A (drain after each op) compared with one real Server holding all clients, mode B (arbitrary consumption) with the model and the at-most-once/eligibility oracles.',
+         TB + 'equality of callback invocations in sync_equiv is decided by the correspondence run, not yet by a theorem (sync_equiv_partial); pickle; FIFO channel.', '§5 C07'),
  'C08': ('proof', 'Lean 4 simulation/invariant theorems over a client model and a server-view spec; correspondence with Client/AsyncClient over a scripted engine.io client',
          'connect_sends, wait_all (incl. failed-connect-clean), mirror, bad_namespace, connect/disconnect-once, reset as theorems over arbitrary '
          'histories (the connect-window regions are known findings with decide-witnesses); histories incl. loss mid-binary-packet run on both client families and the model.',
@@ -62,6 +66,10 @@ CLAIMED = {
          'Parity is the statement that both families refine the same deterministic model; every scenario is run on Server, AsyncServer and '
          'the model and the two implementation traces are diffed; forwarding tables / reserved lists of the two families are proved equal.',
          'Trusted: the scenario generators bound what is seen; handlers inline or background handlers joined; Lean kernel for the table theorems.', '§5 C14'),
+ 'C15': ('proof', 'Lean 4 fold/containment theorems over a listener model parametric in the decoding result; the real _thread() driven synchronously over garbage streams; Redis retry loops with a fake redis module',
+         'never_dies, continues (fold law), error_is_noop, no_self_apply, foreign_callback_inert, backoff as theorems; garbage interleaved with valid messages '
+         'on PubSubManager and AsyncPubSubManager, every valid message after the garbage must have its full effect.',
+         TB + 'which builtin raises which exception class; BaseExceptions end the listener by design.', '§5 C15'),
  'C16': ('proof', 'Lean 4 theorems over the session part of the server-core model; correspondence with Server/AsyncServer',
          'read-your-write, privacy across clients and namespaces, context manager = get;set;save as theorems; fresh-session clause is '
          'false on the unchanged tree (known finding, negation witness proved) and proved under the explicit hypothesis.',
